@@ -152,10 +152,12 @@ Definition prop_one (c : cstr) (ds : doms) : option doms :=
   end.
 
 (* ------------------------------------------------------------------ _propagate *)
-Definition any_empty (ds : doms) : bool := existsb (fun p => match snd p with [] => true | _ => false end) ds.
+Definition is_nil (d : list Z) : bool := match d with [] => true | _ => false end.
+(* for n, d in domains.items(): if not d: return False *)
+Definition any_empty (ds : doms) : bool := existsb (fun i => is_nil (dget ds i)) (dkeys ds).
 (* some len(d) < old_sizes[n] *)
 Definition shrunk (old new : doms) : bool :=
-  existsb (fun p => Nat.ltb (length (dget new (fst p))) (length (snd p))) old.
+  existsb (fun i => Nat.ltb (length (dget new i)) (length (dget old i))) (dkeys old).
 
 (* one sweep `for constraint in self._constraints`; None = return False *)
 Fixpoint prop_pass (cs : list cstr) (ds : doms) (changed : bool) : option (doms * bool) :=
@@ -273,8 +275,13 @@ Definition solve_dfs (vo : list Z -> list Z) (M : cpmodel) (hints : list (nat * 
       end
   end.
 
-(* Model.solve(solver='dfs'): when the hinted solve is INFEASIBLE, solve again without hints *)
+(* Model.solve(solver='dfs'), commit 39644fa + 7ef6c48:
+     if any(var.lb > var.ub ...): return INFEASIBLE            (before _solve_dfs, whatever the constraints)
+     result = _solve_dfs(hints, ...); if hints and result.status == INFEASIBLE: solve again without hints *)
+Definition has_empty_dom (M : cpmodel) : bool := existsb (fun v => vub v <? vlb v) (m_vars M).
+
 Definition solve (vo : list Z -> list Z) (M : cpmodel) (hints : list (nat * Z)) (limit : Z) : dfs_result :=
+  if has_empty_dom M then RSols [] else
   match solve_dfs vo M hints limit with
   | RSols [] => match hints with [] => RSols [] | _ => solve_dfs vo M [] limit end
   | r => r
